@@ -16,15 +16,15 @@ REQUIRED = {"any": ["creates", "parses", "result_accessors", "success_values_val
 
 TYPES = ["LocalTime", "LocalDate", "LocalDateTime", "Offset", "Duration", "AnnualDate", "Instant"]
 FIXED = {
-    "LocalTime": ["T", "t", "r", "o", "HH:mm:ss", "hh:mm tt", "H:m:s.FFFFFFFFF", "HH:mm:ss;fff", "HH'h'mm", "h:mm:ss t"],
-    "LocalDate": ["D", "d", "R", "r", "M", "uuuu-MM-dd", "yyyy MMM dd g", "dd/MM/yy", "dddd d MMMM uuuu", "uuuu-MM-dd c", 'uuuu"x"MM', "yyyy-MM-dd c"],
-    "LocalDateTime": ["F", "f", "G", "g", "o", "O", "r", "R", "s", "S", "uuuu-MM-dd'T'HH:mm:ss", "ld<uuuu-MM-dd> lt<HH:mm>", "dd MMM yyyy hh:mm tt g", "yyyy-MM-dd HH:mm c"],
-    "Offset": ["g", "G", "l", "m", "s", "L", "M", "S", "i", "I", "+HH:mm:ss", "-H:mm", "Z+HH", "+HH", "-HH:mm:ss"],
-    "Duration": ["o", "j", "-D:hh:mm:ss.FFFFFFFFF", "H:mm", "S.fff", "+D HH", "-M:ss", "-S.fffffffff"],
-    "Instant": ["g", "uuuu-MM-dd'T'HH:mm:ss'Z'", "dd/MM/uuuu HH:mm:ss.fff", "yyyy-MM-dd HH:mm g"],
-    "AnnualDate": ["G", "MM-dd", "d MMMM", "MMM d"],
+    "LocalTime": ["T", "t", "r", "o", "'{'HH:mm'}'", "HH''mm", 'HH""mm', "HH:mm:ss", "hh:mm tt", "H:m:s.FFFFFFFFF", "HH:mm:ss;fff", "HH'h'mm", "h:mm:ss t"],
+    "LocalDate": ["D", "d", "R", "r", "M", "'{'uuuu-MM-dd'}'", "uuuu''MM''dd", "uuuu-MM-dd", "yyyy MMM dd g", "dd/MM/yy", "dddd d MMMM uuuu", "uuuu-MM-dd c", 'uuuu"x"MM', "yyyy-MM-dd c"],
+    "LocalDateTime": ["F", "f", "G", "g", "o", "O", "r", "R", "s", "S", "'{0}'uuuu-MM-dd HH:mm", "ld<uuuu''MM''dd> lt<HH''mm>", "uuuu-MM-dd'T'HH:mm:ss", "ld<uuuu-MM-dd> lt<HH:mm>", "dd MMM yyyy hh:mm tt g", "yyyy-MM-dd HH:mm c"],
+    "Offset": ["g", "G", "l", "m", "s", "L", "M", "S", "i", "I", "'{'+HH:mm'}'", "+HH''mm", "+HH:mm:ss", "-H:mm", "Z+HH", "+HH", "-HH:mm:ss"],
+    "Duration": ["o", "j", "'{'-H:mm'}'", "-H''mm", "-D:hh:mm:ss.FFFFFFFFF", "H:mm", "S.fff", "+D HH", "-M:ss", "-S.fffffffff"],
+    "Instant": ["g", "'{'uuuu-MM-dd HH:mm'}'", "uuuu''MM''dd HH", "uuuu-MM-dd'T'HH:mm:ss'Z'", "dd/MM/uuuu HH:mm:ss.fff", "yyyy-MM-dd HH:mm g"],
+    "AnnualDate": ["G", "'{'MM-dd'}'", "MM''dd", "MM-dd", "d MMMM", "MMM d"],
 }
-ALPH = list("0123456789:/-.+ ,TZtzaApPmM\0٣３é\u0301\ud800'\"\\%<>") + ["12", "99", "00", "0000", "10000", "-", "24", "60", "61", "13", "31", "19", "23:59:59"]
+ALPH = list("0123456789:/-.+ ,TZtzaApPmM\0٣３é\u0301\ud800'\"\\%<>{}") + ["{0}", "{", "}", "{x}", "%s", "{0:d}", "12", "99", "00", "0000", "10000", "-", "24", "60", "61", "13", "31", "19", "23:59:59"]
 DIRECT = {
     "LocalTime": ["24:00:00", "23:60:00", "23:59:60", "12:00:00.1234567890", "-1:00:00", "25:61:61"],
     "LocalDate": ["2023-13-01", "2023-02-30", "2023-02-31", "2023-04-31", "10000-01-01", "-10000-01-01", "2023-00-10", "2023-01-00", "0000-01-01", "99999999999-01-01"],
@@ -66,6 +66,7 @@ def text_mutants(rng, t, n):
         elif op == 3: s[i] = rng.choice(ALPH)
         else: s.insert(i, rng.choice(ALPH))
         out.add("".join(s))
+    out |= {t.replace("1", "9"), t.replace("0", "9"), t.replace("2", "7"), t + "{0}", "{" + t + "}", t.replace("0", "{", 1)}
     out |= {"", " ", "\0", t + "\0x", t * 3, "9" * 50, "-" + t, "+" + t, t + " ", " " + t, "1" * 400, t.upper(), t.lower(), t[:-1], t[1:], "\ud800", "٣٣:٣٣", "３" * 4}
     for k in (1, 2, 3, 9, 10, 11, 19, 20, 40, 100):
         out.add(str(rng.getrandbits(4 * k))[:k].rjust(k, "1"))
